@@ -112,6 +112,69 @@ fn direct_case() -> impl Strategy<Value = DirectCase> {
         .prop_map(|(helix, s, off, near, free)| DirectCase { helix: fx6(helix), s: Fx(s), off: [Fx(off.0), Fx(off.1), Fx(off.2)], near, free: [Fx(free.0), Fx(free.1), Fx(free.2)] })
 }
 
+/// Cases drawn in the coordinates of the underlying Kepler problem
+/// M = E - e sin E: eccentricity e = 4 pi^2 rho R / h^2 (rho = distance of the
+/// point from the helix axis) dense around the classically hard region e ~ 1,
+/// mean anomaly M with extra weight on small |M|. The pitch and the point's z
+/// are derived from (e, M), so every decade of e is reached by construction.
+#[derive(Clone, Debug, Serialize, Deserialize)]
+pub struct KeplerCase {
+    pub x0: Fx,
+    pub y0: Fx,
+    pub z0: Fx,
+    pub radius: Fx,
+    pub phi0: Fx,
+    /// distance of the point from the helix axis and its azimuth around it
+    pub rho: Fx,
+    pub delta: Fx,
+    pub e: Fx,
+    pub m: Fx,
+    pub negative_pitch: bool,
+}
+
+fn kepler(c: &KeplerCase, ev: &mut Ev) -> Outcome {
+    ev.eval();
+    let h = 2.0 * PI * (c.rho.0 * c.radius.0 / c.e.0).sqrt() * if c.negative_pitch { -1.0 } else { 1.0 };
+    // temp = phi0 + 2 pi (z - z0) / h - delta, and M = pi + 2 pi n - temp with n = floor(temp / 2 pi)
+    let temp = PI - c.m.0;
+    let z = c.z0.0 + h / (2.0 * PI) * (temp - c.phi0.0 + c.delta.0);
+    if !z.is_finite() || !h.is_finite() || h == 0.0 || z.abs() > 50.0 {
+        return Ok(());
+    }
+    let helix = [c.x0.0, c.y0.0, c.z0.0, c.radius.0, c.phi0.0, h];
+    let t = track_of(&helix, 0.0, 0.0);
+    let p = (c.x0.0 + c.rho.0 * c.delta.0.cos(), c.y0.0 + c.rho.0 * c.delta.0.sin(), z);
+    let point = sp_xyz(p.0, p.1, p.2);
+    let q = xyz(&point);
+    let tt = no_panic("closest_t", || rh::closest_t(&t, point))?;
+    let interior = judge(&t, q, tt, "closest_t (Kepler coordinates)")?;
+    let band = if c.e.0 < 0.5 { "e<0.5" } else if c.e.0 < 0.95 { "0.5<=e<0.95" } else if c.e.0 < 1.0 { "0.95<=e<1" } else if c.e.0 < 1.05 { "1<=e<1.05" } else if c.e.0 < 1.5 { "1.05<=e<1.5" } else { "e>=1.5" };
+    if interior {
+        ev.label(&format!("kepler-interior:{band}"));
+        ev.nontrivial(fingerprint(&format!("{c:?}")));
+    } else {
+        ev.label("kepler-clamped");
+    }
+    Ok(())
+}
+
+fn kepler_case() -> impl Strategy<Value = KeplerCase> {
+    let e = prop_oneof![
+        5 => 0.5f64..1.5,
+        3 => 0.9f64..1.1,
+        1 => prop_oneof![Just(1.0f64), Just(1.0 - f64::EPSILON), Just(1.0 + f64::EPSILON)],
+        3 => (-4.0f64..8.0).prop_map(|u| 10f64.powf(u)),
+    ];
+    let m = prop_oneof![
+        3 => -PI..=PI,
+        3 => (-8.0f64..0.5, any::<bool>()).prop_map(|(u, neg)| if neg { -(10f64.powf(u)) } else { 10f64.powf(u) }),
+        1 => prop_oneof![Just(0.0f64), Just(PI), Just(-PI)],
+    ];
+    ((-1.0f64..=1.0, -1.0f64..=1.0, -1.0f64..=1.0, 0.03f64..=5.0, -PI..=PI), (0.01f64..0.4, -PI..=PI), e, m, any::<bool>()).prop_map(|((x0, y0, z0, radius, phi0), (rho, delta), e, m, negative_pitch)| KeplerCase {
+        x0: Fx(x0), y0: Fx(y0), z0: Fx(z0), radius: Fx(radius), phi0: Fx(phi0), rho: Fx(rho), delta: Fx(delta), e: Fx(e), m: Fx(m), negative_pitch,
+    })
+}
+
 /// Hook-free: fitted tracks and vertex parameters.
 fn fitted(c: &PointsCase, ev: &mut Ev) -> Outcome {
     ev.eval();
@@ -173,6 +236,7 @@ fn helix_only() -> impl Strategy<Value = PointsCase> {
 fn run(r: &Run) {
     let t = r.tier;
     r.prop("closest_t_direct", t.pick(12_000, 1_000_000), direct_case, direct);
+    r.prop("closest_t_kepler_coordinates", t.pick(60_000, 3_000_000), kepler_case, kepler);
     r.prop("fitted_tracks_and_vertices", t.pick(400, 20_000), helix_only, fitted);
 }
 
@@ -180,6 +244,7 @@ fn replay(_r: &Run, check: &str, case: &Value) -> Option<Outcome> {
     Some(match check {
         "closest_t_direct" => replay_case(case, direct),
         "fitted_tracks_and_vertices" => replay_case(case, fitted),
+        "closest_t_kepler_coordinates" => replay_case(case, kepler),
         _ => return None,
     })
 }
